@@ -4,5 +4,8 @@ EXTENDS CodegenPipeline
 \* sibling nested messages
 MCMods == {1, 2, 3}
 MCFiles == << [mod |-> 1, items |-> <<11, 12>>], [mod |-> 2, items |-> <<21, 22>>], [mod |-> 3, items |-> <<31>>], [mod |-> 1, items |-> <<13>>] >>
+\* file stems: items 11 and 13 collide inside module 1 (13 arrives with the second file of that module), 21 and 31 carry the
+\* same stem as 11 in OTHER modules (what a name set outliving its module would trip over), 211 and 213 collide as siblings
+MCStem == [x \in {11, 12, 13, 21, 22, 31, 211, 212, 213} |-> CASE x \in {11, 13, 21, 31} -> "a" [] x \in {211, 213} -> "n" [] OTHER -> ToString(x)]
 MCNested == [x \in {11, 12, 13, 21, 22, 31} |-> IF x = 21 THEN <<211, 212, 213>> ELSE <<>>]
 ====
